@@ -225,8 +225,8 @@ func ruleEntryPoints(c *Ctx) {
 			}
 			if errV == nil {
 				// discarded
-				if strings.HasPrefix(calleeFull(call), "(*bytes.Buffer).Write") {
-					c.Check(R2, key, call.Pos(), true, "bytes.Buffer writes never fail (documented: err is always nil)", "infallible")
+				if strings.HasPrefix(calleeFull(call), "(*bytes.Buffer).Write") || strings.HasPrefix(calleeFull(call), "(*strings.Builder).Write") {
+					c.Check(R2, key, call.Pos(), true, "bytes.Buffer / strings.Builder writes never fail (documented: err is always nil)", "infallible")
 					return
 				}
 				switch {
@@ -357,6 +357,27 @@ func bindCalls(n *Normer, p *Prog, fn *ssa.Function, calls map[string]string, ex
 				if ex, ok := r.(*ssa.Extract); ok && ex.Index < 2 && rs[ex.Index] != "" {
 					n.Bind[ex] = rs[ex.Index]
 				}
+				// the two results returned as one small struct: its fields, in order, carry the roles
+				if st, isSt := call.Type().Underlying().(*types.Struct); isSt && st.NumFields() == 2 {
+					switch x := r.(type) {
+					case *ssa.Field:
+						if x.Field < 2 && rs[x.Field] != "" {
+							n.Bind[x] = rs[x.Field]
+						}
+					case *ssa.Store:
+						if a, isA := x.Addr.(*ssa.Alloc); isA && x.Val == ssa.Value(call) {
+							for _, ar := range *a.Referrers() {
+								if fa, isFA := ar.(*ssa.FieldAddr); isFA && fa.Field < 2 && rs[fa.Field] != "" {
+									for _, lr := range *fa.Referrers() {
+										if ld, isLd := lr.(*ssa.UnOp); isLd {
+											n.Bind[ld] = rs[fa.Field]
+										}
+									}
+								}
+							}
+						}
+					}
+				}
 			}
 		}
 	})
@@ -398,9 +419,11 @@ func ruleGuards(c *Ctx) {
 			calls:  map[string]string{"code128.strToRunes": "runes", "code128.getCodeIndexList": "idx"},
 			errIff: "len(runes) <= 0 || len(runes) > 80 || idxNil", subst: map[string]string{"idxNil": nilOf("idx")}},
 		{fn: "pdf417.EncodeWithColor", roles: []string{"data", "level", "color"},
-			ext:    map[string][2]string{"pdf417.highlevelEncode": {"words", "hlErr"}, "pdf417.calcDimensions": {"cols", "rows"}, "pdf417.encodeData": {"cw", "edErr"}},
-			errIff: "level >= 9 || !hlNil || cols < 2 || cols > 30 || rows < 2 || rows > 30 || !edNil",
-			subst:  map[string]string{"hlNil": nilOf("hlErr"), "edNil": nilOf("edErr")}},
+			// encodeData cannot fail (every return yields a nil error - read through the helper); whether
+			// it still has an error result or not makes no difference to what is rejected
+			ext:    map[string][2]string{"pdf417.highlevelEncode": {"words", "hlErr"}, "pdf417.calcDimensions": {"cols", "rows"}, "pdf417.encodeData": {"cw", ""}},
+			errIff: "level >= 9 || !hlNil || cols < 2 || cols > 30 || rows < 2 || rows > 30",
+			subst:  map[string]string{"hlNil": nilOf("hlErr")}},
 		{fn: "twooffive.EncodeWithColor", roles: []string{"content", "interleaved", "color"},
 			errIff: "empty || (interleaved && len(content)%2 == 1)", subst: map[string]string{"empty": "Eq(const:\"\",content)"}},
 		{fn: "twooffive.AddCheckSum", roles: []string{"content"},
